@@ -34,6 +34,11 @@ pub enum T1 {
     Match(Pat1),
     /// branches: condition steps, optional consequence steps
     Block(Vec<(Vec<Vec<T1>>, Option<Vec<Vec<T1>>>)>),
+    /// `#P { body }`: parameter type, body branches, the captured outer variables in the order the
+    /// compiler's free-variable collector meets them
+    FnLit(Ty, Vec<(Vec<Vec<T1>>, Option<Vec<Vec<T1>>>)>, Vec<String>),
+    /// the callable variable applied to the flowing value
+    Call(String),
 }
 
 #[derive(Clone, Debug, PartialEq)]
@@ -47,6 +52,8 @@ pub enum Ty {
     /// a block's value when its branches differ: only binders / placeholders are applied to it (a
     /// structured pattern on a union type gets a run-time type test, which is outside the fragment)
     Any,
+    /// a function value with this parameter type (never nil: nilary calls are compiled differently)
+    Fn(Box<Ty>),
 }
 
 impl Ty {
@@ -67,6 +74,10 @@ pub struct Gen<'a> {
     pub counter: u32,
     /// generate blocks too
     pub blocks: bool,
+    /// generate function literals (at the top level of the entry sequence) and calls
+    pub fns: bool,
+    /// inside a function body (no further function literals)
+    pub in_body: bool,
 }
 
 impl<'a> Gen<'a> {
@@ -138,10 +149,11 @@ impl<'a> Gen<'a> {
                 None => (self.int(), Ty::Int),
             },
             3 | 4 => {
-                if self.env.is_empty() {
+                let data: Vec<(String, Ty)> = self.env.iter().filter(|(_, t)| !matches!(t, Ty::Fn(_))).cloned().collect();
+                if data.is_empty() {
                     (self.int(), Ty::Int)
                 } else {
-                    let (n, t) = self.env[self.r.usize(self.env.len())].clone();
+                    let (n, t) = data[self.r.usize(data.len())].clone();
                     (T1::Var(n), t)
                 }
             }
@@ -200,7 +212,31 @@ impl<'a> Gen<'a> {
         }
     }
 
+    /// a literal value of a parameter type
+    fn value_of(&mut self, ty: &Ty) -> T1 {
+        match ty {
+            Ty::Tup(n, fs) => T1::Tup(n.clone(), fs.iter().map(|f| vec![self.value_of(f)]).collect()),
+            _ => self.int(),
+        }
+    }
+
     pub fn chain(&mut self, flow: Option<&Ty>, depth: u32) -> (Vec<T1>, Ty) {
+        // an application: `<argument> f`
+        let fvars: Vec<(String, Ty)> = self.env.iter().filter(|(_, t)| matches!(t, Ty::Fn(_))).cloned().collect();
+        if self.fns && !fvars.is_empty() && self.r.chance(1, 3) {
+            let (f, t) = fvars[self.r.usize(fvars.len())].clone();
+            if let Ty::Fn(p) = t {
+                let arg = self.value_of(&p);
+                let mut out = vec![arg, T1::Call(f)];
+                let mut ty = Ty::Any;
+                if self.r.chance(1, 2) {
+                    let (t2, ty2) = self.term(Some(&Ty::Any), depth);
+                    out.push(t2);
+                    ty = ty2;
+                }
+                return (out, ty);
+            }
+        }
         let n = 1 + self.r.usize(if depth == 0 { 2 } else { 3 });
         let mut out = vec![];
         let mut cur: Option<Ty> = flow.cloned();
@@ -225,6 +261,48 @@ impl<'a> Gen<'a> {
         let mut flow: Option<Ty> = start.cloned();
         let mut last = Ty::Int;
         for _ in 0..n {
+            if self.fns && !self.in_body && start.is_none() && self.r.chance(1, 3) {
+                // `#P { … } =f` as a whole step
+                let p = match self.r.below(3) {
+                    0 => Ty::Tup(None, vec![Ty::Int, Ty::Int]),
+                    1 => Ty::Tup(Some("A".into()), vec![Ty::Int]),
+                    _ => Ty::Int,
+                };
+                let outer: Vec<String> = self.env.iter().map(|(n, _)| n.clone()).collect();
+                let mark = self.env.len();
+                self.in_body = true;
+                let nb = 1 + self.r.usize(2);
+                let mut body = vec![];
+                for _ in 0..nb {
+                    let m2 = self.env.len();
+                    let nc = 1 + self.r.usize(2);
+                    let (cond, _) = self.seq_in(Some(&p), depth.saturating_sub(1), nc);
+                    let cons = if self.r.chance(1, 2) {
+                        let nk = 1 + self.r.usize(2);
+                        Some(self.seq_in(Some(&p), depth.saturating_sub(1), nk).0)
+                    } else {
+                        None
+                    };
+                    self.env.truncate(m2);
+                    body.push((cond, cons));
+                }
+                self.in_body = false;
+                self.env.truncate(mark);
+                let mut caps = vec![];
+                for (c, k) in &body {
+                    free_seq(c, &outer, &mut caps);
+                    if let Some(k) = k {
+                        free_seq(k, &outer, &mut caps);
+                    }
+                }
+                self.counter += 1;
+                let f = format!("f{}", self.counter);
+                self.env.push((f.clone(), Ty::Fn(Box::new(p.clone()))));
+                out.push(vec![T1::FnLit(p, body, caps), T1::Match(Pat1::Top(Sub::Bind(f)))]);
+                last = Ty::Ok;
+                flow = Some(Ty::Ok);
+                continue;
+            }
             let (mut c, mut ty) = self.chain(flow.as_ref(), depth);
             if ty.is_static_nil() {
                 c.push(self.int());
@@ -237,6 +315,60 @@ impl<'a> Gen<'a> {
         }
         (out, last)
     }
+}
+
+/// the outer variables a function body uses, in the order of the compiler's free-variable collector
+/// (branches in order: condition steps, then consequence steps; terms and tuple fields left to right)
+fn free_seq(s: &[Vec<T1>], outer: &[String], out: &mut Vec<String>) {
+    for c in s {
+        for t in c {
+            free_term(t, outer, out);
+        }
+    }
+}
+
+fn free_term(t: &T1, outer: &[String], out: &mut Vec<String>) {
+    match t {
+        T1::Var(x) | T1::Call(x) => {
+            if outer.contains(x) && !out.contains(x) {
+                out.push(x.clone());
+            }
+        }
+        T1::Tup(_, fs) => {
+            for f in fs {
+                for t in f {
+                    free_term(t, outer, out);
+                }
+            }
+        }
+        T1::Block(bs) | T1::FnLit(_, bs, _) => {
+            for (c, k) in bs {
+                free_seq(c, outer, out);
+                if let Some(k) = k {
+                    free_seq(k, outer, out);
+                }
+            }
+        }
+        _ => {}
+    }
+}
+
+fn src_ty(t: &Ty) -> String {
+    match t {
+        Ty::Int => "'int".into(),
+        Ty::Tup(n, fs) => format!("{}[{}]", n.clone().unwrap_or_default(), fs.iter().map(src_ty).collect::<Vec<_>>().join(", ")),
+        _ => "'int".into(),
+    }
+}
+
+fn src_branches(bs: &[(Vec<Vec<T1>>, Option<Vec<Vec<T1>>>)]) -> String {
+    bs.iter()
+        .map(|(c, k)| match k {
+            Some(k) => format!("{} => {}", src_seq(c), src_seq(k)),
+            None => src_seq(c),
+        })
+        .collect::<Vec<_>>()
+        .join(" | ")
 }
 
 pub fn src_seq(s: &[Vec<T1>]) -> String {
@@ -270,6 +402,8 @@ fn src_term(t: &T1) -> String {
             }
             format!("{}[{}]", n.clone().unwrap_or_default(), fs.iter().map(|c| src_chain(c)).collect::<Vec<_>>().join(", "))
         }
+        T1::FnLit(p, bs, _) => format!("#{} {{ {} }}", src_ty(p), src_branches(bs)),
+        T1::Call(x) => x.clone(),
         T1::Block(bs) => {
             let parts: Vec<String> = bs
                 .iter()
@@ -284,9 +418,54 @@ fn src_term(t: &T1) -> String {
 }
 
 /// what the model is asked to compile: ids taken from the real stream, in emission order
-struct Ids<'a> {
-    consts: std::slice::Iter<'a, usize>,
-    tuples: std::slice::Iter<'a, usize>,
+struct Ids {
+    consts: Vec<usize>,
+    ci: usize,
+    tuples: Vec<usize>,
+    ti: usize,
+    funs: Vec<usize>,
+    fi: usize,
+}
+
+impl Ids {
+    fn of(code: &[Instruction]) -> Ids {
+        Ids {
+            consts: code.iter().filter_map(|i| if let Instruction::Constant(c) = i { Some(*c) } else { None }).collect(),
+            ci: 0,
+            tuples: code.iter().filter_map(|i| if let Instruction::Tuple(t) = i { Some(*t) } else { None }).collect(),
+            ti: 0,
+            funs: code.iter().filter_map(|i| if let Instruction::Function(f) = i { Some(*f) } else { None }).collect(),
+            fi: 0,
+        }
+    }
+    fn next_const(&mut self) -> Option<usize> {
+        let v = self.consts.get(self.ci).copied();
+        self.ci += 1;
+        v
+    }
+    fn next_tuple(&mut self) -> Option<usize> {
+        let v = self.tuples.get(self.ti).copied();
+        self.ti += 1;
+        v
+    }
+    fn next_fun(&mut self) -> Option<usize> {
+        let v = self.funs.get(self.fi).copied();
+        self.fi += 1;
+        v
+    }
+    fn leftover(&self) -> bool {
+        self.ci < self.consts.len() || self.ti < self.tuples.len() || self.fi < self.funs.len()
+    }
+}
+
+/// serialisation context: the bytecode (function bodies have their own id streams), the function table
+/// entries produced so far and the real code of those functions
+struct Sx<'a> {
+    bc: &'a quiver_core::bytecode::Bytecode,
+    checks: Vec<Check>,
+    fns: Vec<String>,
+    fn_codes: Vec<String>,
+    bad: Option<String>,
 }
 
 pub enum Check {
@@ -294,84 +473,103 @@ pub enum Check {
     Tuple(usize, Option<String>, usize),
     /// a verdict / nil-fill `Tuple` of a match template
     Fixed(usize, usize),
+    /// function `fi` has this many captures
+    Captures(usize, usize),
 }
 
-fn sx_chain(c: &[T1], ids: &mut Ids, checks: &mut Vec<Check>) -> Option<String> {
+fn sx_chain(c: &[T1], ids: &mut Ids, cx: &mut Sx) -> Option<String> {
     let mut s = "(ch".to_string();
     for t in c {
         s.push(' ');
-        s.push_str(&sx_term(t, ids, checks)?);
+        s.push_str(&sx_term(t, ids, cx)?);
     }
     s.push(')');
     Some(s)
 }
 
-fn sx_sub(s: &Sub, ids: &mut Ids, checks: &mut Vec<Check>) -> Option<String> {
+fn sx_sub(s: &Sub, ids: &mut Ids, cx: &mut Sx) -> Option<String> {
     Some(match s {
         Sub::Bind(x) => format!("(b {x})"),
         Sub::Wild => "(w)".into(),
         Sub::Lit(z) => {
-            let i = *ids.consts.next()?;
-            checks.push(Check::Const(i, *z));
+            let i = ids.next_const()?;
+            cx.checks.push(Check::Const(i, *z));
             format!("(l {z} {i})")
         }
     })
 }
 
-fn sx_term(t: &T1, ids: &mut Ids, checks: &mut Vec<Check>) -> Option<String> {
+fn sx_branches(bs: &[(Vec<Vec<T1>>, Option<Vec<Vec<T1>>>)], ids: &mut Ids, cx: &mut Sx) -> Option<String> {
+    let mut out = String::new();
+    for (c, k) in bs {
+        let mut cs = vec![];
+        for ch in c {
+            cs.push(sx_chain(ch, ids, cx)?);
+        }
+        out.push_str(&format!(" (br (s {})", cs.join(" ")));
+        if let Some(k) = k {
+            let mut ks = vec![];
+            for ch in k {
+                ks.push(sx_chain(ch, ids, cx)?);
+            }
+            out.push_str(&format!(" (s {})", ks.join(" ")));
+        }
+        out.push(')');
+    }
+    Some(out)
+}
+
+fn sx_term(t: &T1, ids: &mut Ids, cx: &mut Sx) -> Option<String> {
     Some(match t {
         T1::Int(z) => {
-            let i = *ids.consts.next()?;
-            checks.push(Check::Const(i, *z));
+            let i = ids.next_const()?;
+            cx.checks.push(Check::Const(i, *z));
             format!("(i {z} {i})")
         }
         T1::Ripple => "(~)".into(),
         T1::Var(x) => format!("(v {x})"),
+        T1::Call(x) => format!("(call {x})"),
+        T1::FnLit(_, body, caps) => {
+            let fi = ids.next_fun()?;
+            cx.checks.push(Check::Captures(fi, caps.len()));
+            let code = &cx.bc.functions.get(fi)?.instructions;
+            let mut sub = Ids::of(code);
+            let b = sx_branches(body, &mut sub, cx)?;
+            if sub.leftover() {
+                cx.bad = Some(format!("function {fi}: its instruction stream has more constants / tuples / functions than its body"));
+            }
+            cx.fns.push(format!("(fn {fi} (caps {}){b})", caps.join(" ")));
+            cx.fn_codes.push(format!("f{fi} {}", code.iter().map(show).collect::<Vec<_>>().join(" ")));
+            format!("(fnlit {fi} {})", caps.join(" ")).trim_end().to_string() + ""
+        }
         T1::Match(p) => {
             let (body, nb) = match p {
-                Pat1::Top(s) => (format!("(pt {})", sx_sub(s, ids, checks)?), matches!(s, Sub::Bind(_)) as usize),
+                Pat1::Top(s) => (format!("(pt {})", sx_sub(s, ids, cx)?), matches!(s, Sub::Bind(_)) as usize),
                 Pat1::Tup(_, subs) => {
                     let mut parts = vec![];
                     for s in subs {
-                        parts.push(sx_sub(s, ids, checks)?);
+                        parts.push(sx_sub(s, ids, cx)?);
                     }
                     (format!("(ptup {})", parts.join(" ")), subs.iter().filter(|s| matches!(s, Sub::Bind(_))).count())
                 }
             };
             // the template's own Tuple instructions: Ok, one nil per binding, nil
-            checks.push(Check::Fixed(*ids.tuples.next()?, 1));
+            let t1 = ids.next_tuple()?;
+            cx.checks.push(Check::Fixed(t1, 1));
             for _ in 0..nb + 1 {
-                checks.push(Check::Fixed(*ids.tuples.next()?, 0));
+                let t0 = ids.next_tuple()?;
+                cx.checks.push(Check::Fixed(t0, 0));
             }
             format!("(m {body})")
         }
-        T1::Block(bs) => {
-            let mut out = "(blk".to_string();
-            for (c, k) in bs {
-                let mut cs = vec![];
-                for ch in c {
-                    cs.push(sx_chain(ch, ids, checks)?);
-                }
-                out.push_str(&format!(" (br (s {})", cs.join(" ")));
-                if let Some(k) = k {
-                    let mut ks = vec![];
-                    for ch in k {
-                        ks.push(sx_chain(ch, ids, checks)?);
-                    }
-                    out.push_str(&format!(" (s {})", ks.join(" ")));
-                }
-                out.push(')');
-            }
-            out.push(')');
-            out
-        }
+        T1::Block(bs) => format!("(blk{})", sx_branches(bs, ids, cx)?),
         T1::Tup(n, fs) => {
             let mut inner = vec![];
             for f in fs {
-                inner.push(sx_chain(f, ids, checks)?);
+                inner.push(sx_chain(f, ids, cx)?);
             }
-            let id = *ids.tuples.next()?;
-            checks.push(Check::Tuple(id, n.clone(), fs.len()));
+            let id = ids.next_tuple()?;
+            cx.checks.push(Check::Tuple(id, n.clone(), fs.len()));
             let mut s = format!("(t {id}");
             for f in inner {
                 s.push(' ');
@@ -400,6 +598,8 @@ pub fn show(i: &Instruction) -> String {
         Instruction::Get(k) => format!("get{k}"),
         Instruction::Equal(n) => format!("equal{n}"),
         Instruction::IsType(t) => format!("istype{t}"),
+        Instruction::Function(f) => format!("function{f}"),
+        Instruction::Call => "call".into(),
         other => format!("<{other:?}>"),
     }
 }
@@ -408,6 +608,8 @@ pub struct FragCase {
     pub source: String,
     /// the argument list of the `(compile1 …)` / `(eval1 …)` requests
     pub chains: Option<String>,
+    /// `(fns …)` argument of the `compile3` / `eval3` requests (empty table if there are no functions)
+    pub fns: String,
     pub real: String,
     pub checks_ok: bool,
     pub note: String,
@@ -426,24 +628,28 @@ pub fn prepare(seq: &[Vec<T1>], unit: &qverif::run::Unit) -> FragCase {
         note = "unexpected prologue".into();
         &ins[..]
     };
-    let consts: Vec<usize> = body.iter().filter_map(|i| if let Instruction::Constant(c) = i { Some(*c) } else { None }).collect();
-    let tuples: Vec<usize> = body.iter().filter_map(|i| if let Instruction::Tuple(t) = i { Some(*t) } else { None }).collect();
-    let mut ids = Ids { consts: consts.iter(), tuples: tuples.iter() };
-    let mut checks = vec![];
+    let mut ids = Ids::of(body);
+    let mut cx = Sx { bc: &bc, checks: vec![], fns: vec![], fn_codes: vec![], bad: None };
     let mut parts = vec![];
     let mut complete = true;
     for c in seq {
-        match sx_chain(c, &mut ids, &mut checks) {
+        match sx_chain(c, &mut ids, &mut cx) {
             Some(x) => parts.push(x),
             None => complete = false,
         }
     }
     let chains = if complete { Some(parts.join(" ")) } else { None };
-    let leftover = ids.consts.next().is_some() || ids.tuples.next().is_some();
-    let mut checks_ok = !leftover;
+    let leftover = ids.leftover();
+    let mut checks_ok = !leftover && cx.bad.is_none();
     if leftover {
-        note = "the instruction stream has more constants / tuples than the term".into();
+        note = "the instruction stream has more constants / tuples / functions than the term".into();
     }
+    if let Some(b) = &cx.bad {
+        note = b.clone();
+    }
+    let fns = format!("(fns {})", cx.fns.join(" "));
+    let fn_codes = cx.fn_codes.clone();
+    let checks = std::mem::take(&mut cx.checks);
     for c in &checks {
         match c {
             Check::Const(i, z) => {
@@ -465,6 +671,12 @@ pub fn prepare(seq: &[Vec<T1>], unit: &qverif::run::Unit) -> FragCase {
                     note = format!("a match template uses tuple id {got} where {want} is expected");
                 }
             }
+            Check::Captures(fi, n) => {
+                if bc.functions.get(*fi).map(|f| f.captures) != Some(*n) {
+                    checks_ok = false;
+                    note = format!("function {fi} does not have {n} captures");
+                }
+            }
         }
     }
     // the theorem's `wfProg`: ids 0 / 1 are the field-less nil / Ok
@@ -474,8 +686,12 @@ pub fn prepare(seq: &[Vec<T1>], unit: &qverif::run::Unit) -> FragCase {
         checks_ok = false;
         note = "tuple ids 0 / 1 are not nil / Ok".into();
     }
-    let real = body.iter().map(show).collect::<Vec<_>>().join(" ");
-    FragCase { source, chains, real, checks_ok, note }
+    let mut real = body.iter().map(show).collect::<Vec<_>>().join(" ");
+    for fc in &fn_codes {
+        real.push_str(" ; ");
+        real.push_str(fc);
+    }
+    FragCase { source, chains, fns, real, checks_ok, note }
 }
 
 /// the value in the id-based form the driver's `eval1` prints
@@ -484,6 +700,7 @@ pub fn show_value(v: &quiver_core::value::Value) -> String {
     match v {
         Value::Integer(z) => format!("i{z}"),
         Value::Tuple(id, fs) => format!("t({id};{})", fs.iter().map(show_value).collect::<Vec<_>>().join(",")),
+        Value::Function(fi, _) => format!("f{fi}"),
         _ => "?".into(),
     }
 }
